@@ -26,7 +26,7 @@ ASSUMPTIONS = [
     "serial numbers are unique within one round (documented requirement)",
     "PrintBuffer.flush() moving waiting_for past the largest held serial is the documented behaviour",
 ]
-SHARD_TIMEOUT = {"quick": 600, "thorough": 3600}
+SHARD_TIMEOUT = {"quick": 300, "thorough": 3600}
 NSHARDS = 16
 
 
